@@ -938,3 +938,69 @@ pub fn check_c09_python(case: &PipeCase, image: &[u8]) -> Verdict {
     }
     Verdict::Pass
 }
+
+/// C06, low rate: the same numbers through `bigtools bigwiginfo` / `bigbedinfo` (built multicall binary, subprocess).
+pub fn check_c06_info_tool(case: &PipeCase, image: &[u8]) -> Verdict {
+    use std::io::Write;
+    let bin = match std::env::var("VERIF_BIGTOOLS_BIN") {
+        Ok(b) if std::path::Path::new(&b).exists() => b,
+        _ => return Verdict::Pass, // binary not built for this run: the reader-level oracle already passed
+    };
+    let mut tmp = match tempfile::NamedTempFile::new() {
+        Ok(t) => t,
+        Err(e) => return Verdict::Skip(format!("HARNESS: scratch file: {}", e)),
+    };
+    if tmp.write_all(image).and_then(|_| tmp.flush()).is_err() {
+        return Verdict::Skip("HARNESS: scratch write".into());
+    }
+    let sub = if case.kind == Kind::Wig { "bigwiginfo" } else { "bigbedinfo" };
+    let out = match std::process::Command::new(&bin).arg(sub).arg(tmp.path()).output() {
+        Ok(o) => o,
+        Err(e) => return Verdict::Skip(format!("HARNESS: cannot run {}: {}", bin, e)),
+    };
+    if !out.status.success() {
+        return viol(
+            "info-tool",
+            format!("{} failed: {}", sub, String::from_utf8_lossy(&out.stderr).chars().take(200).collect::<String>()),
+        );
+    }
+    let text = String::from_utf8_lossy(&out.stdout).to_string();
+    let field = |name: &str| -> Option<String> {
+        text.lines()
+            .find_map(|l| l.strip_prefix(name).map(|r| r.trim().to_string()))
+    };
+    let (want, zero_len) = whole_file_stats(case);
+    let bases: Option<u64> = field("basesCovered:").and_then(|s| s.replace(',', "").parse().ok());
+    if bases != Some(want.bases) {
+        return viol("info-tool", format!("{} prints basesCovered {:?}, the data covers {}", sub, bases, want.bases));
+    }
+    if case.kind == Kind::Bed {
+        let items: Option<u64> = field("itemCount:").and_then(|s| s.parse().ok());
+        if items != Some(case.total_items() as u64) {
+            return viol("info-tool", format!("bigbedinfo prints itemCount {:?}, {} entries written", items, case.total_items()));
+        }
+    }
+    if want.bases > 0 {
+        let (minname, maxname, meanname) = if case.kind == Kind::Wig { ("min:", "max:", "mean:") } else { ("minDepth:", "maxDepth:", "meanDepth:") };
+        let parse = |n: &str| field(n).and_then(|s| s.parse::<f64>().ok());
+        let close = |got: Option<f64>, want: f64| match got {
+            Some(g) => (g - want).abs() <= 1e-6 * want.abs().max(1.0) + 1e-6 || (g.is_infinite() && want.abs() > 1e300),
+            None => false,
+        };
+        let min_ok = close(parse(minname), want.min) || zero_len.iter().any(|z| close(parse(minname), *z) && *z < want.min);
+        let max_ok = close(parse(maxname), want.max) || zero_len.iter().any(|z| close(parse(maxname), *z) && *z > want.max);
+        if !min_ok || !max_ok {
+            return viol(
+                "info-tool",
+                format!("{} prints min {:?} max {:?}, expected {} {}", sub, parse(minname), parse(maxname), want.min, want.max),
+            );
+        }
+        let mean = want.sum / want.bases as f64;
+        let tol = 1e-6 * (want.abs_sum / want.bases as f64).max(1.0) + 1e-6;
+        match parse(meanname) {
+            Some(g) if (g - mean).abs() <= tol || !mean.is_finite() => {}
+            g => return viol("info-tool", format!("{} prints mean {:?}, expected {}", sub, g, mean)),
+        }
+    }
+    Verdict::Pass
+}
